@@ -589,6 +589,15 @@ pub fn apply_input_plugins(
     query: &serde_json::Value,
     plugins: &Vec<Arc<dyn InputPlugin>>,
 ) -> Result<Vec<serde_json::Value>, serde_json::Value> {
+    // a query must be a JSON object; in particular an array would be spliced into the query
+    // state below and treated as zero or more separate queries
+    if !query.is_object() {
+        let mut request = query.clone();
+        return Err(in_ops::package_error(
+            &mut request,
+            "query is not a JSON object",
+        ));
+    }
     let mut plugin_state = serde_json::Value::Array(vec![query.clone()]);
     for plugin in plugins {
         let p = plugin.clone();
